@@ -1,8 +1,12 @@
 import Nv.Model.C06
+import Nv.Props.C06
 import Nv.Gen.C06
-/-! C06 — obligations on the definitions regenerated from /repo's current source. -/
+/-!
+C06 — obligations on the definitions regenerated from /repo's current source (`Nv/Gen/C06.lean`):
+the regenerated kernels *are* the model's functions, and the property theorems restated directly on runs of
+the regenerated `HardNode.Generate` / `GenIDByTS`.
+-/
 namespace Nv.C06
-open Nv.Gen.C06
 
 theorem tie_facts : Nv.Gen.C06.facts = Facts.expected := by decide
 
@@ -16,8 +20,8 @@ theorem tie_idFields (id : BitVec 64) (nb : BitVec 8) (nal : Bool) :
   unfold Nv.Gen.C06.iDFields Nv.C06.idFields
   rw [tie_figureShift]
 
-/-- the regenerated `HardNode.Generate` is the model's `hardCore` applied to `now` computed by the
-    accessor the extractor classified -/
+/-- the regenerated `HardNode.Generate` is the model's `hardCore` applied to `now` computed through the
+    accessor the extractor classified (`Gen.cfg.nowAcc`) -/
 theorem tie_hardGenerate (step time epoch node : BitVec 64) (nb : BitVec 8) (nal : Bool) (w : BitVec 64) :
     Nv.Gen.C06.hardNode_generate step time epoch node nb nal w =
       (let r := hardCore nb nal ⟨epoch, time, node, step⟩ (hardNow Nv.Gen.C06.cfg epoch w)
@@ -36,6 +40,78 @@ theorem tie_nanoNoLockGen (ts cur : BitVec 64) :
     Nv.Gen.C06.unixNanoNoLockID_genIDByTS ts cur = nanoGen ts cur := by
   unfold Nv.Gen.C06.unixNanoNoLockID_genIDByTS nanoGen; split <;> rfl
 
+/-! ### the property, on runs of the regenerated kernels -/
+
+/-- successive calls of the regenerated `HardNode.Generate`; `ws` are the words the clock accessor returned -/
+def genHardRun (nb : BitVec 8) (nal : Bool) (epoch node : BitVec 64) : BitVec 64 → BitVec 64 → List (BitVec 64) → List (BitVec 64)
+  | _, _, [] => []
+  | step, time, w :: ws =>
+    (Nv.Gen.C06.hardNode_generate step time epoch node nb nal w).1 ::
+      genHardRun nb nal epoch node (Nv.Gen.C06.hardNode_generate step time epoch node nb nal w).2.1
+        (Nv.Gen.C06.hardNode_generate step time epoch node nb nal w).2.2 ws
+
+theorem hardCore_keeps (nb : BitVec 8) (nal : Bool) (st : HState) (now : BitVec 64) :
+    (hardCore nb nal st now).1.epoch = st.epoch ∧ (hardCore nb nal st now).1.node = st.node := by
+  unfold hardCore; split
+  · exact ⟨rfl, rfl⟩
+  · split <;> exact ⟨rfl, rfl⟩
+
+theorem tie_genHardRun (nb : BitVec 8) (nal : Bool) (epoch node : BitVec 64) :
+    ∀ (ws : List (BitVec 64)) (step time : BitVec 64),
+      genHardRun nb nal epoch node step time ws =
+        coreRun nb nal ⟨epoch, time, node, step⟩ (ws.map (hardNow Nv.Gen.C06.cfg epoch))
+  | [], _, _ => rfl
+  | w :: ws, step, time => by
+    have hk := hardCore_keeps nb nal ⟨epoch, time, node, step⟩ (hardNow Nv.Gen.C06.cfg epoch w)
+    simp only [genHardRun, List.map_cons, coreRun, tie_hardGenerate]
+    rw [tie_genHardRun nb nal epoch node ws]
+    congr 2
+    cases h : (hardCore nb nal ⟨epoch, time, node, step⟩ (hardNow Nv.Gen.C06.cfg epoch w)).1 with
+    | mk e t n s =>
+      rw [h] at hk
+      simp only at hk
+      rw [hk.1, hk.2]
+
+/-- C06 on the regenerated `HardNode.Generate`: strictly increasing, duplicate-free, node field fixed —
+    for every sequence of clock words (any clock history), all six layouts -/
+theorem tie_hard_strictly_increasing {nb : BitVec 8} (hl : LayoutOk nb) (nal : Bool) (epoch node step time : BitVec 64)
+    (ws : List (BitVec 64)) (wf : WF nb ⟨epoch, time, node, step⟩)
+    (hw : InWidth nb nal ⟨epoch, time, node, step⟩ (ws.map (hardNow Nv.Gen.C06.cfg epoch))) :
+    (genHardRun nb nal epoch node step time ws).Pairwise (fun a b => a.toInt < b.toInt) ∧
+    (genHardRun nb nal epoch node step time ws).Nodup ∧
+    ∀ id ∈ genHardRun nb nal epoch node step time ws, (Nv.Gen.C06.iDFields id nb nal).2.1 = node := by
+  rw [tie_genHardRun]
+  refine ⟨hard_strictly_increasing hl nal _ _ wf hw, hard_unique hl nal _ _ wf hw, fun id h => ?_⟩
+  rw [tie_idFields]; exact hard_node_field hl nal _ _ wf hw id h
+
+/-- successive calls of the regenerated `GenIDByTS` -/
+def genNanoRun : BitVec 64 → List (BitVec 64) → List (BitVec 64)
+  | _, [] => []
+  | cur, ts :: rest => (Nv.Gen.C06.unixNanoID_genIDByTS ts cur).1 :: genNanoRun (Nv.Gen.C06.unixNanoID_genIDByTS ts cur).2 rest
+
+theorem tie_genNanoRun : ∀ (tss : List (BitVec 64)) (cur : BitVec 64), genNanoRun cur tss = nanoRun cur tss
+  | [], _ => rfl
+  | ts :: rest, cur => by simp only [genNanoRun, nanoRun, tie_nanoGen, tie_genNanoRun rest]
+
+theorem tie_nano_strictly_increasing (tss : List (BitVec 64)) (cur : BitVec 64) (h : NanoBelowMax cur tss) :
+    (genNanoRun cur tss).Pairwise (fun a b => a.toInt < b.toInt) := by
+  rw [tie_genNanoRun]; exact nano_strictly_increasing tss cur h
+
+/-- the accessor facts found in the source are inside the proved set (fails on a tree that still converts
+    through `UnixNano`: see `witness_unixNano_stamp_before_clock`) -/
 theorem tie_cfg_proved : Proved Nv.Gen.C06.cfg := by decide
+
+/-- C06 on the regenerated kernel: no id carries a timestamp earlier than the clock reading -/
+theorem tie_hard_ts_ge_clock {nb : BitVec 8} (hl : LayoutOk nb) (nal : Bool) (ts : List Clock) (st : HState) (wf : WF nb st)
+    (hok : ∀ t ∈ ts, ClockOk st.epoch t)
+    (hw : InWidth nb nal st (ts.map (fun t => hardNow Nv.Gen.C06.cfg st.epoch (accWord Nv.Gen.C06.cfg.nowAcc t)))) :
+    ∀ p ∈ List.zip ts (genHardRun nb nal st.epoch st.node st.step st.time (ts.map (accWord Nv.Gen.C06.cfg.nowAcc))),
+      p.1.ms - st.epoch.toInt ≤ (Nv.Gen.C06.iDFields p.2 nb nal).1.toInt := by
+  intro p hp
+  rw [tie_genHardRun, List.map_map] at hp
+  rw [tie_idFields]
+  have := hard_ts_ge_clock tie_cfg_proved hl nal ts st wf hok hw p
+  rw [hardRun_eq_coreRun] at this
+  exact this hp
 
 end Nv.C06
